@@ -86,20 +86,6 @@ def rewriteFloatLit (mode : TrailingZero) (symbol suffix : List Char) : Option (
       let frac := if incFrac then p.fractionalPart.getD ['0'] else []
       some (p.integerPart ++ period ++ frac ++ p.exponent.getD [] ++ suffix)
 
-/-- `float_lit_ends_in_dot` (src/expr.rs): does the PRINTED literal end in a `.`?  The callers that put
-something starting with `.` right after a literal (a range operator, a method call, a field access)
-ask this to decide whether to keep the two apart (`1. ..2.`, `(1.).max(2.)`).  `parse_float_symbol(..)
-.unwrap()` of the code is `none` here. -/
-def floatLitEndsInDot (mode : TrailingZero) (symbol suffix : List Char) : Option Bool :=
-  match mode with
-  | .preserve => some (symbol.getLast? == some '.' && suffix.isEmpty)
-  | .always => some false
-  | .ifNoPostfix => some false
-  | .never =>
-    match parseFloatSymbol symbol with
-    | none => none
-    | some p => some (!(p.exponent.isSome || !suffix.isEmpty) && p.isFractionalPartZero)
-
 inductive HexCase | preserve | upper | lower
   deriving DecidableEq, Repr
 
